@@ -167,6 +167,20 @@ func (b Service) VerifySessionV1TokenMessage(m *protosession.SessionToken, reqVe
 		return session.Object{}, err
 	}
 
+	// The cache is shared with object validation which caches tokens after the
+	// signature check only (objects with expired tokens are valid), so lifetime
+	// must be checked on every call, not only on cache miss.
+	currentEpoch, err := b.nm.Epoch()
+	if err != nil {
+		return session.Object{}, errors.New("can't fetch current epoch")
+	}
+	if sToken.ExpiredAt(currentEpoch) {
+		return session.Object{}, apistatus.ErrSessionTokenExpired
+	}
+	if !sToken.ValidAt(currentEpoch) {
+		return session.Object{}, fmt.Errorf("%s: token is invalid at %d epoch)", invalidRequestMessage, currentEpoch)
+	}
+
 	if err := b.verifySessionTokenAgainstRequest(sToken, reqVerb, reqCnr, reqObj); err != nil {
 		return session.Object{}, err
 	}
@@ -196,17 +210,6 @@ func (b Service) decodeAndVerifySessionTokenCommon(m *protosession.SessionToken,
 	var token session.Object
 	if err := token.FromProtoMessage(m); err != nil {
 		return token, fmt.Errorf("invalid session token: %w", err)
-	}
-
-	currentEpoch, err := b.nm.Epoch()
-	if err != nil {
-		return token, errors.New("can't fetch current epoch")
-	}
-	if token.ExpiredAt(currentEpoch) {
-		return token, apistatus.ErrSessionTokenExpired
-	}
-	if !token.ValidAt(currentEpoch) {
-		return token, fmt.Errorf("%s: token is invalid at %d epoch)", invalidRequestMessage, currentEpoch)
 	}
 
 	body, err := iprotobuf.GetFirstBytesField(mb)
@@ -250,6 +253,12 @@ func (b Service) VerifySessionTokenMessage(mV2 *protosession.SessionTokenV2, req
 	})
 	if err != nil {
 		return sessionv2.Token{}, err
+	}
+
+	// Same as for V1: the shared cache may hold a token that passed the
+	// signature check only.
+	if err := sToken.Validate(b.r); err != nil {
+		return sessionv2.Token{}, fmt.Errorf("validate V2 session token: %w", err)
 	}
 
 	currentTime := b.chainTime.Now().Round(time.Second)
@@ -319,10 +328,6 @@ func (b Service) decodeAndVerifySessionTokenV2Common(m *protosession.SessionToke
 	var token sessionv2.Token
 	if err := token.FromProtoMessage(m); err != nil {
 		return token, fmt.Errorf("invalid V2 session token: %w", err)
-	}
-
-	if err := token.Validate(b.r); err != nil {
-		return token, fmt.Errorf("validate V2 session token: %w", err)
 	}
 
 	body, err := iprotobuf.GetFirstBytesField(mb)
